@@ -464,6 +464,10 @@ def _stateless_value(v, depth=0):
             return all(_stateless_value(a, depth + 1) for a in args)
         if f[0] == "attr" and f[2] in _PURE_METHODS:
             return _stateless_value(f[1], depth + 1) and all(_stateless_value(a, depth + 1) for a in args)
+        # a compiled pattern (and its bound match/search/sub) is immutable: matching keeps no state between calls
+        if (f[0] == "attr" and f[1][0] == "ext" and f[1][1] == "re" and f[2] in ("compile", "escape")) or \
+                (f[0] == "ext" and f[1] == "re" and f[2] in ("compile", "escape")):
+            return all(_stateless_value(a, depth + 1) for a in args)
         return False
     return False
 
@@ -942,3 +946,89 @@ def im15(ctx: Ctx):
     ctx.instance(rule)
     ctx.ob(rule, "<module _url>", "iterations over cache dicts", True, sample=f"{n} live iteration(s); self-check on {len(_IM15_EXAMPLES)} built-in examples",
            nontrivial=False)
+
+
+def im16(ctx: Ctx):
+    """IM16: every cached property of URL stores under its own name. The property layer (propcache's under_cached_property)
+    keys the per-object cache by the wrapped function's `__name__`, not by the attribute the descriptor is bound to. A
+    descriptor built outside a `def` of the same name - `x = cached_property(f)`, a factory returning `cached_property(inner)` -
+    stores under the inner function's name: two attributes built from one inner function share a key, and whichever is read
+    first (or pre-filled, or pickled) decides what the other returns."""
+    model = ctx.model
+    rule = "IM16"
+    ctx.rule(rule, floor=20, what="each cached property's cache key (the wrapped function's name) is the attribute name, and unique")
+    mi = model.module("_url")
+    cls = next((n for n in mi.tree.body if isinstance(n, ast.ClassDef) and n.name == "URL"), None)
+    if cls is None:
+        raise AnalysisError("anchor vanished: class URL")
+
+    def is_cp(expr):
+        name = None
+        if isinstance(expr, ast.Name):
+            name = expr.id
+        elif isinstance(expr, ast.Attribute):
+            name = expr.attr
+        return name is not None and model._decorator_base(mi, name) == "cached_property"
+
+    def key_of(expr, depth=0):
+        """The cache key a class-level value stores under, None if it is not a cached property, AnalysisError if unknown."""
+        if isinstance(expr, ast.Call) and is_cp(expr.func):
+            if len(expr.args) == 1 and isinstance(expr.args[0], ast.Name):
+                return expr.args[0].id          # the function's own name (a local def or a module-level def)
+            if len(expr.args) == 1 and isinstance(expr.args[0], ast.Lambda):
+                return "<lambda>"
+            raise AnalysisError("IM16: cached_property(...) over an expression whose __name__ is not evident (unknown idiom)")
+        if isinstance(expr, ast.Call) and isinstance(expr.func, ast.Name) and depth < 3:
+            rr = model.resolve_global("_url", expr.func.id)
+            if rr and rr[0] == "func":
+                keys = set()
+                if any(isinstance(n, ast.Attribute) and n.attr in ("__name__", "__qualname__") and isinstance(n.ctx, ast.Store)
+                       for n in ast.walk(rr[1].node)) or any(isinstance(n, ast.Call) and isinstance(n.func, ast.Name) and n.func.id == "setattr"
+                                                              for n in ast.walk(rr[1].node)):
+                    raise AnalysisError(f"IM16: {expr.func.id}() sets the wrapped function's __name__ at run time: the cache key is not "
+                                        "evident from the source (unknown idiom)")
+                for n in ast.walk(rr[1].node):
+                    if isinstance(n, ast.Return) and n.value is not None:
+                        v = n.value
+                        if isinstance(v, ast.Name):
+                            # a local def decorated with cached_property, or a local bound to cached_property(...)
+                            for d in ast.walk(rr[1].node):
+                                if isinstance(d, ast.FunctionDef) and d.name == v.id and any(is_cp(x.func if isinstance(x, ast.Call) else x) for x in d.decorator_list):
+                                    keys.add(d.name)
+                                if isinstance(d, ast.Assign) and len(d.targets) == 1 and isinstance(d.targets[0], ast.Name) and d.targets[0].id == v.id:
+                                    k = key_of(d.value, depth + 1)
+                                    if k is not None:
+                                        keys.add(k)
+                        else:
+                            k = key_of(v, depth + 1)
+                            if k is not None:
+                                keys.add(k)
+                if len(keys) > 1:
+                    raise AnalysisError(f"IM16: {expr.func.id}() returns cached properties under several keys (unknown idiom)")
+                return next(iter(keys)) if keys else None
+        return None
+
+    keys = {}
+    for n in cls.body:
+        if isinstance(n, ast.FunctionDef) and any(is_cp(d.func if isinstance(d, ast.Call) else d) for d in n.decorator_list):
+            keys.setdefault(n.name, []).append((n.name, n))
+        elif isinstance(n, (ast.Assign, ast.AnnAssign)) and getattr(n, "value", None) is not None:
+            targets = n.targets if isinstance(n, ast.Assign) else [n.target]
+            k = key_of(n.value)
+            if k is None:
+                continue
+            for t in targets:
+                if isinstance(t, ast.Name):
+                    keys.setdefault(k, []).append((t.id, n))
+    if not keys:
+        raise AnalysisError("IM16: class URL has no cached property (anchor vanished)")
+    for k, users in sorted(keys.items()):
+        for attr, node in users:
+            ctx.instance(rule)
+            others = sorted({a for a, _n in users if a != attr})
+            ok = attr == k and not others
+            ctx.ob(rule, f"_url.URL.{attr}", f"cache key of {attr}", ok,
+                   f"the cached property `{attr}` stores its value under the key {k!r} (the wrapped function's __name__)"
+                   + (f", which `{others[0]}` uses too" if others else "") + ": the value read through one attribute is whatever was "
+                   "cached first under that key - by the other attribute, a pre-fill or a copy", f"yarl/_url.py:{node.lineno}",
+                   sample=f"key {k!r} = attribute name, no other user")
